@@ -97,6 +97,8 @@ def explain(op, what, g_src, g_doc):
             out.add("C15-open-ended-error-token")
         if "exotic-space-token" in g_src and what == "tokens":
             out.add("C15-exotic-space")
+        if "irregular-token" in g_src and what == "tokens":
+            out.add("C15-lexer-context-dependent-token")
         if op in ("range", "ontype") and "wrapped" in g_src:
             out.add("C15-wrap-range-index")
     elif op == "idem":
@@ -110,6 +112,8 @@ def explain(op, what, g_src, g_doc):
             out.add("C15-open-ended-error-token")
         if "var-colon-in-token" in both:
             out.add("C15-var-colon-in-literal")
+        if "irregular-token" in both:
+            out.add("C15-lexer-context-dependent-token")
     elif op == "web" and what in CONTENT:
         if what in ("comments", "pragmas") and ("multiline-comment" in g_src or "multiline-pragma" in g_src):
             out.add("C15-web-multiline-trivia")
@@ -151,6 +155,10 @@ def extra(ctx):
         docs = {}
         texts = {}
         cfg = ""
+        for l in c.lines:
+            if l.startswith("# irregular "):
+                # set by the harness: a token whose label depends on its right context (lexer quirk)
+                guards.setdefault((c.n, {"source": 0, "lsp-formatted": 1, "web-formatted": 2}[l.split()[2]]), set()).add("irregular-token")
         for l in c.lines:
             if l.startswith("cfg "):
                 cfg = l
